@@ -222,17 +222,32 @@ fn check_case(ctx: &mut Ctx, rng: &mut Rng, case: &Case, perms: usize, case_seed
         ctx.eval();
         let mut pv = v.clone();
         if pi > 0 {
-            if let Some(xs) = find_field_mut(&mut pv, "satellite_data").and_then(seq_mut) {
-                match pi % 3 {
-                    1 => xs.reverse(),
+            // decoder order is the sorted order; besides reversal and full shuffles also the
+            // "almost sorted" inputs: one adjacent transposition, one element moved
+            fn almost(xs: &mut Vec<V>, rng: &mut Rng, mode: usize) {
+                let n = xs.len();
+                match mode {
+                    0 => xs.reverse(),
+                    1 if n > 1 => {
+                        let a = rng.usize_below(n - 1);
+                        xs.swap(a, a + 1);
+                    }
+                    2 if n > 2 => {
+                        let a = rng.usize_below(n);
+                        let e = xs.remove(a);
+                        let b = rng.usize_below(n);
+                        xs.insert(b, e);
+                    }
+                    3 => {}
                     _ => rng.shuffle(xs),
                 }
             }
+            let (ms, mc) = ((pi * 7 + 1) % 6, (pi * 5 + 2) % 6);
+            if let Some(xs) = find_field_mut(&mut pv, "satellite_data").and_then(seq_mut) {
+                almost(xs, rng, ms);
+            }
             if let Some(xs) = find_field_mut(&mut pv, "signal_data").and_then(seq_mut) {
-                match pi % 4 {
-                    2 => xs.reverse(),
-                    _ => rng.shuffle(xs),
-                }
+                almost(xs, rng, if ms == 3 && mc == 3 { 1 } else { mc });
             }
             ctx.count("permuted_inputs");
         }
